@@ -25,6 +25,8 @@ pub enum Op {
     NthAs(u8),
     /// a typed iteration requesting a type the file does not hold, one `next()` call
     IterAs,
+    /// the complete Reader's `read()` (by `&mut self`): every remaining pair
+    ReadAll,
 }
 
 #[derive(Serialize, Deserialize, Debug, Clone, Hash)]
@@ -358,6 +360,7 @@ fn drive_shape_reader_ref<T: std::io::Read + std::io::Seek>(r: &mut ShapeReader<
                     }
                 }
             }
+            Op::ReadAll => {}
             Op::IterAs => {
                 let first = r.iter_shapes_as::<shapefile::Multipoint>().next();
                 model.typed_miss(matches!(first, Some(Err(_))), first.is_none(), with_index).map_err(|m| Fail::new("iteration-sequence", format!("{}: {}", whole(&c.ops, k), m)))?;
@@ -368,6 +371,34 @@ fn drive_shape_reader_ref<T: std::io::Read + std::io::Seek>(r: &mut ShapeReader<
         }
     }
     Ok(())
+}
+
+/// `Reader::read()`: the remaining pairs as model items, plus a note if some shape came with another shape's row.
+fn read_all_items<T: std::io::Read + std::io::Seek, D: std::io::Read + std::io::Seek>(r: &mut Reader<T, D>) -> (Vec<Item>, Option<String>) {
+    match r.read() {
+        Ok(v) => {
+            let mut mis = None;
+            let items = v
+                .iter()
+                .map(|(s, rec)| {
+                    let si = ident(s);
+                    let ri = match rec.get("idx") {
+                        Some(dbase::FieldValue::Numeric(Some(v))) => Some(*v as usize),
+                        _ => None,
+                    };
+                    if si != ri && mis.is_none() {
+                        mis = Some(format!("shape {:?} paired with row {:?}", si, ri));
+                    }
+                    match si {
+                        Some(i) => Item::Rec(i),
+                        None => Item::Err("unidentifiable shape".into()),
+                    }
+                })
+                .collect();
+            (items, mis)
+        }
+        Err(e) => (vec![Item::Err(err_str(&e))], None),
+    }
 }
 
 pub struct Histories;
@@ -419,6 +450,7 @@ impl Prop for Histories {
                 Op::Seek(x) if *x > 0 => seen_seek = true,
                 Op::Iter(j) if *j != 255 && (*j as usize) < n => seen_partial = true,
                 Op::IterSkip(_) | Op::IterAs | Op::NthAs(_) => seen_partial = true,
+                Op::ReadAll => {}
                 _ => {}
             }
             let _ = k;
@@ -497,6 +529,15 @@ impl Prop for Histories {
                                 fail!("iteration-sequence", "{}: {}", whole(&c.ops, k), m);
                             }
                         }
+                        Op::ReadAll => {
+                            let (items, mis) = read_all_items(&mut r);
+                            if let Some(m) = mis {
+                                fail!("pairs-misaligned", "{}: read(): {}", whole(&c.ops, k), m);
+                            }
+                            if let Err(m) = model.iterate(&items, true) {
+                                fail!("iteration-sequence", "{}: read(): {}", whole(&c.ops, k), m);
+                            }
+                        }
                         Op::Nth(_) | Op::NthAs(_) | Op::IterAs => {}
                     }
                 }
@@ -567,7 +608,16 @@ impl Prop for Histories {
                                     fail!("iteration-sequence", "{}: {}", whole(&c.ops, k), m);
                                 }
                             }
-                            Op::Nth(_) | Op::NthAs(_) | Op::IterAs => {}
+                            Op::ReadAll => {
+                            let (items, mis) = read_all_items(&mut r);
+                            if let Some(m) = mis {
+                                fail!("pairs-misaligned", "{}: read(): {}", whole(&c.ops, k), m);
+                            }
+                            if let Err(m) = model.iterate(&items, true) {
+                                fail!("iteration-sequence", "{}: read(): {}", whole(&c.ops, k), m);
+                            }
+                        }
+                        Op::Nth(_) | Op::NthAs(_) | Op::IterAs => {}
                         }
                     }
                 }
@@ -602,6 +652,15 @@ impl Prop for Histories {
                             let got = r.iter_shapes_and_records().nth(*sk as usize).map(|x| x.map(|(sh, _)| ident(&sh)).map_err(|e| err_str(&e)));
                             if let Err(m) = model.skip_nth(*sk as usize, &got) {
                                 fail!("iteration-sequence", "{} (ops from #{} on run on Reader::new(the used ShapeReader, ..)): {}", whole(&c.ops, k), split, m);
+                            }
+                        }
+                        Op::ReadAll => {
+                            let (items, mis) = read_all_items(&mut r);
+                            if let Some(m) = mis {
+                                fail!("pairs-misaligned", "{}: read(): {}", whole(&c.ops, k), m);
+                            }
+                            if let Err(m) = model.iterate(&items, true) {
+                                fail!("iteration-sequence", "{}: read(): {}", whole(&c.ops, k), m);
                             }
                         }
                         Op::Nth(_) | Op::NthAs(_) | Op::IterAs => {}
@@ -680,7 +739,7 @@ impl EnumProp for Histories {
                 a0.push(Op::Nth(i));
                 a0.push(Op::Seek(i));
             }
-            let mut a1 = vec![Op::Iter(0), Op::Iter(1), Op::Iter(2), Op::Iter(255), Op::Count, Op::IterSkip(1)];
+            let mut a1 = vec![Op::Iter(0), Op::Iter(1), Op::Iter(2), Op::Iter(255), Op::Count, Op::IterSkip(1), Op::ReadAll];
             for i in 0..=n {
                 a1.push(Op::Seek(i));
             }
@@ -730,6 +789,7 @@ impl EnumProp for Histories {
                 }
                 // the complete Reader without an index: iterations, and seeks (which are refused)
                 let mut a6 = a2.clone();
+                a6.push(Op::ReadAll);
                 a6.push(Op::Seek(1));
                 a6.push(Op::Seek(n));
                 for l in 1..=len + 1 {
